@@ -335,6 +335,47 @@ def _generate(ctx, p, env, family):
         a.add_effect(n, em.Int(1))
         p.add_action(a)
         p.add_goal(em.LT(k(c2), em.Times(em.FluentExp(x), k(c1))))
+    elif family == "effects":
+        # every effect kind (assignment / increase / decrease) in every container (instantaneous action, durative action, timed effect
+        # of the problem), unconditional or conditional, plain or universally quantified: each has its own branch in the reader
+        T = tm.UserType("T")
+        p.add_objects([up.model.Object("o1", T, env), up.model.Object("o2", T, env)])
+        b = up.model.Fluent("b", tm.BoolType(), environment=env)
+        q = up.model.Fluent("q", tm.BoolType(), environment=env, x=T)
+        fl = {kd: up.model.Fluent(f"n_{kd}", tm.IntType(0, 100), environment=env, x=T) for kd in ("assign", "increase", "decrease")}
+        p.add_fluent(b, default_initial_value=em.FALSE())
+        p.add_fluent(q, default_initial_value=em.FALSE())
+        for f in fl.values():
+            p.add_fluent(f, default_initial_value=em.Int(5))
+        container = ctx.pick("container", ["instantaneous", "durative", "problem"])
+        conditional, quantified = ctx.choice("conditional", 2), ctx.choice("forall", 2)
+        if quantified and container == "problem":
+            ctx.assume(False)  # timed effects of a problem take no forall
+        y = up.model.Variable("y", T, env)
+        if container == "instantaneous":
+            a = up.model.InstantaneousAction("a", _env=env, x=T)
+        elif container == "durative":
+            a = up.model.DurativeAction("a", _env=env, x=T)
+            a.set_fixed_duration(em.Int(2))
+        else:
+            a = None
+        for i, (kd, f) in enumerate(fl.items()):
+            target = em.VariableExp(y) if quantified else (em.ParameterExp(a.parameter("x")) if a is not None else em.ObjectExp(p.object("o1")))
+            fe = em.FluentExp(f, [target])
+            cond = (em.FluentExp(q, [target]) if i else em.FluentExp(b)) if conditional else em.TRUE()
+            kw = dict(forall=(y,)) if quantified else {}
+            val = em.Int(i + 1)
+            if container == "instantaneous":
+                getattr(a, {"assign": "add_effect", "increase": "add_increase_effect", "decrease": "add_decrease_effect"}[kd])(fe, val, cond, **kw)
+            elif container == "durative":
+                t = (StartTiming(), EndTiming(), StartTiming(1))[i]
+                getattr(a, {"assign": "add_effect", "increase": "add_increase_effect", "decrease": "add_decrease_effect"}[kd])(t, fe, val, cond, **kw)
+            else:
+                t = GlobalStartTiming(3 + i)
+                getattr(p, {"assign": "add_timed_effect", "increase": "add_increase_effect", "decrease": "add_decrease_effect"}[kd])(t, fe, val, cond)
+        if a is not None:
+            p.add_action(a)
+        p.add_goal(em.FluentExp(b))
     elif family == "temporal":
         b = up.model.Fluent("b", tm.BoolType(), environment=env)
         p.add_fluent(b, default_initial_value=em.FALSE())
@@ -525,7 +566,7 @@ def shards(tier, seed):
         out.append(dict(name=f"a-type-str-{kind}", fn="h_type_str", kwargs=dict(kind=kind, width=width), budget=200 if q else 900, per_path=30))
     for form in ("timing", "timing-exp", "time-interval", "duration"):
         out.append(dict(name=f"b-{form}", fn="h_timing", kwargs=dict(form=form, width=width), budget=200 if q else 900, per_path=30))
-    for fam in ("numeric", "temporal"):
+    for fam in ("numeric", "temporal", "effects"):
         out.append(dict(name=f"c-problem-{fam}", fn="h_problem", kwargs=dict(family=fam), budget=200 if q else 900, engine="direct"))
     names = example_names()
     n = 6 if q else 3
